@@ -17,10 +17,11 @@ RULE = ("datasets / moments / bounds as C06. For each loaded moment: every unit 
         "consequence: for a lambda grid {0,1/2,2}^k with <=2 non-zero entries, the predictor 1[w>0] (w = objective + constraint "
         "signed weights) attains min over ALL 2^n hard predictors of error + lambda.gamma computed from the reference gamma; "
         "project_lambda(lambda) >= 0 and Lagrangian(h, projected) >= Lagrangian(h, lambda) for all 2^n hard predictors; loss "
-        "moments: lambda.gamma(h) == (1/n) sum w_i loss_i(h); ErrorRate objective weights. non-trivial = >=2 groups")
+        "moments: lambda.gamma(h) == (1/n) sum w_i loss_i(h); ErrorRate objective weights (cost palette); every moment/objective object "
+        "that was loaded and used with other data first must, after load_data(D), agree with a freshly loaded object. non-trivial = >=2 groups")
 ASSUMPTIONS = ["identity established on a basis; linearity/affinity themselves are checked, not assumed",
                "the relabel/reweight step as used by GridSearch is observed in C09, by ExponentiatedGradient in C08"]
-CLASSES = ["control_strata", "ratio_bound", "projection_changes_lambda", "best_response_checked", "loss_moment", "two_nonzero_lambda"]
+CLASSES = ["reloaded_object", "control_strata", "ratio_bound", "projection_changes_lambda", "best_response_checked", "loss_moment", "two_nonzero_lambda"]
 
 cases = MC.cases
 bounds = MC.bounds
@@ -161,6 +162,40 @@ def run_case(case):
                         float((Lp - Lo).min() + Lo[int(np.argmin(Lp - Lo))]), float(Lo[int(np.argmin(Lp - Lo))]), hbad, entries, ctx)))
             if spec == MC.bound_specs(tier)[0]:
                 outcome.append([name, np.round(W, 9).tolist()])
+    # a moment / objective object that was loaded (and used) with OTHER data before: after load_data(D) everything must refer to D
+    out["classes"].add("reloaded_object")
+    y0 = [1 - v for v in y]
+    a0 = a[1:] + a[:1]
+    objs = [("ErrorRate", lambda: red.ErrorRate()), ("ErrorRate-costs", lambda: red.ErrorRate(costs={"fp": 2.0, "fn": 1.0})),
+            ("BoundedGroupLoss", lambda: red.BoundedGroupLoss(red.SquareLoss(0, 1), upper_bound=0.2))]
+    objs += [(nm, (lambda nm_: lambda: getattr(red, nm_)(ratio_bound=0.8))(nm)) for nm in PARITY if not all(e is None for e in events_of(nm, y, c))
+             and not all(e is None for e in events_of(nm, y0, c))]
+    for oname, mk in objs:
+        kwc = {} if (c is None or (oname in ("ErrorRate", "ErrorRate-costs")) or oname == "BoundedGroupLoss") else {"control_features": np.array(c)}
+        fresh = mk()
+        fresh.load_data(X, np.array(y, float) if oname == "BoundedGroupLoss" else np.array(y), sensitive_features=np.array(a), **kwc)
+        used = mk()
+        try:
+            used.load_data(X, np.array(y0, float) if oname == "BoundedGroupLoss" else np.array(y0), sensitive_features=np.array(a0), **kwc)
+            used.gamma(MC.as_pred(soft))
+            used.signed_weights(pd.Series(1.0, index=used.index)) if not (oname in ("ErrorRate", "ErrorRate-costs")) else used.signed_weights()
+            used.load_data(X, np.array(y, float) if oname == "BoundedGroupLoss" else np.array(y), sensitive_features=np.array(a), **kwc)
+        except Exception as ex:
+            V.append(viol("C07:%s:reload-raises-%s" % (oname, type(ex).__name__), "loading an already loaded %s again raised %r (%s)" % (oname, ex, ctx0)))
+            continue
+        out["evals"] += 2
+        idx_f, idx_u = list(fresh.index), list(used.index)
+        if idx_f != idx_u:
+            V.append(viol("C07:%s:stale-after-reload" % oname, "index after re-loading %r differs from a fresh object's %r (%s)" % (idx_u[:6], idx_f[:6], ctx0)))
+            continue
+        lamr = pd.Series([0.5 + 0.25 * j for j in range(len(idx_f))], index=fresh.index)
+        wf = np.asarray(fresh.signed_weights(lamr) if not (oname in ("ErrorRate", "ErrorRate-costs")) else fresh.signed_weights(), float)
+        wu = np.asarray(used.signed_weights(lamr) if not (oname in ("ErrorRate", "ErrorRate-costs")) else used.signed_weights(), float)
+        gf = np.asarray(fresh.gamma(MC.as_pred(soft)), float)
+        gu = np.asarray(used.gamma(MC.as_pred(soft)), float)
+        if not np.allclose(wf, wu, rtol=0, atol=1e-12) or not np.allclose(gf, gu, rtol=0, atol=1e-12):
+            V.append(viol("C07:%s:stale-after-reload" % oname, "after load_data(D0); use; load_data(D): signed_weights %r / gamma %r, a freshly loaded object gives %r / %r (%s)" % (
+                wu.tolist(), gu.tolist(), wf.tolist(), gf.tolist(), ctx0), [wf.tolist(), gf.tolist()], [wu.tolist(), gu.tolist()]))
     # loss moments
     out["classes"].add("loss_moment")
     yreal = [0.25 * yi + 0.125 * i for i, yi in enumerate(y)]
